@@ -19,7 +19,7 @@ MANIFEST = {
     'technique': 'symbolic execution of the real Python source with z3 from an arbitrary invariant pre-state (k-induction, k=1)',
 }
 
-BOUNDS = {'quick': [1, 2, 3, 4, 5], 'thorough': [1, 2, 3, 4, 5, 6, 7]}
+BOUNDS = {'quick': [1, 2, 3, 4, 5], 'thorough': [1, 2, 3, 4, 5, 6, 7, 8]}
 INFO = {
     'engine': 'symx + z3',
     'explanation': 'Pre-state counts and cap symbolic; sorted(key=Counter.get) forks on solver-decided comparisons; post-conditions are z3 queries per path.',
